@@ -75,7 +75,7 @@ def bounds(tier):
 
 
 def units(tier):
-    names = list(INPUTS) + (list(THOROUGH_INPUTS) if tier != 'quick' else [])
+    names = list(INPUTS) + (list(THOROUGH_INPUTS) if tier != 'quick' else ['many-small-chunks-1048700'])
     return [{'codec': c, 'input': name, 'tier': tier} for c in CODECS for name in names]
 
 
